@@ -291,3 +291,193 @@ void h_sanity (void)
   V_ASSERT (parser.errors.n_items >= 2, "temporary read before written and destination written twice are both reported");
   V_WITNESS ();
 }
+
+/* =====================================================================================================================
+ * C15: a program written as .orc text is the program built through the API (unit contracts on the same real functions)
+ * ===================================================================================================================== */
+static long g_strtol_val; static int g_strtol_fixed;
+/* (the strtol stub above returns an arbitrary long; for the equivalence harnesses the harness needs to know the value the
+ * handler saw: it is recorded here by a wrapper compiled in when C15_EQUIV is defined) */
+#ifdef C15_EQUIV
+long __wrap_strtol_value (void) { return g_strtol_val; }
+#endif
+
+static int str_eq (const char *a, const char *b) { if (!a || !b) return a == b; return strcmp (a, b) == 0; }
+static int var_eq (OrcVariable *x, OrcVariable *y)
+{
+  return x->vartype == y->vartype && x->size == y->size && x->alignment == y->alignment && x->param_type == y->param_type
+      && x->value.i == y->value.i && str_eq (x->name, y->name) && str_eq (x->type_name, y->type_name);
+}
+
+#ifndef DKIND
+#define DKIND 0
+#endif
+/* one declaration directive, well formed, with an arbitrary (symbolic) size token value: handler == API call */
+void h_dir_equiv (void)
+{
+  OrcParser parser; memset (&parser, 0, sizeof parser);
+  parser.code = ""; parser.opcode_set = &the_set; parser.enable_errors = 1; parser.line_number = 1;
+  parser.program = mk_program ();
+  OrcProgram *q = mk_program ();              /* the API-built twin */
+  static const char *dn[] = { ".source", ".dest", ".temp", ".param", ".longparam", ".floatparam", ".doubleparam", ".accumulator", ".source", ".dest" };
+  OrcLine line; memset (&line, 0, sizeof line);
+  line.tokens[0] = dn[DKIND]; line.tokens[1] = "4"; line.tokens[2] = "nm"; line.n_tokens = 3;
+  int with_align = (DKIND == 8), with_type = (DKIND == 9);
+  if (with_align) { line.tokens[3] = "align"; line.tokens[4] = "16"; line.n_tokens = 5; }
+  if (with_type) { line.tokens[3] = "ty"; line.n_tokens = 4; }
+  orc_parse_handle_directive (&parser, &line);
+  /* the size (and alignment) the handler passed on is whatever strtol returned for the token; the API twin gets the same values */
+  OrcProgram *p = parser.program;
+  int idx = -1;
+  for (int i = 0; i < ORC_N_VARIABLES; i++) if (p->vars[i].name && strcmp (p->vars[i].name, "nm") == 0) idx = i;
+  V_ASSERT (idx >= 0, "the declared variable exists under its name");
+  int size = p->vars[idx].size;
+  int r = -1;
+  switch (DKIND) {
+    case 0: case 8: r = orc_program_add_source (q, size, "nm"); break;
+    case 1: case 9: r = orc_program_add_destination (q, size, "nm"); break;
+    case 2: r = orc_program_add_temporary (q, size, "nm"); break;
+    case 3: r = orc_program_add_parameter (q, size, "nm"); break;
+    case 4: r = orc_program_add_parameter_int64 (q, size, "nm"); break;
+    case 5: r = orc_program_add_parameter_float (q, size, "nm"); break;
+    case 6: r = orc_program_add_parameter_double (q, size, "nm"); break;
+    case 7: r = orc_program_add_accumulator (q, size, "nm"); break;
+  }
+  if (with_align) orc_program_set_var_alignment (q, r, p->vars[idx].alignment);
+  if (with_type) orc_program_set_type_name (q, r, "ty");
+  V_ASSERT (r == idx, "the directive declares the same variable slot as the API call");
+  V_ASSERT (var_eq (&p->vars[idx], &q->vars[r]), "class, size, alignment, parameter type, name and type name equal the API-built variable");
+  V_ASSERT (p->n_src_vars == q->n_src_vars && p->n_dest_vars == q->n_dest_vars && p->n_temp_vars == q->n_temp_vars && p->n_param_vars == q->n_param_vars
+            && p->n_accum_vars == q->n_accum_vars && p->n_const_vars == q->n_const_vars, "variable counters equal");
+  V_ASSERT (parser.errors.n_items == 0, "a well-formed directive reports no error");
+  V_WITNESS ();
+}
+
+/* numeric literals: decimal / negative / hex / octal with symbolic digits == the value the literal denotes */
+#ifndef LKIND
+#define LKIND 0
+#endif
+void h_literal (void)
+{
+  OrcProgram *p = orc_program_new ();
+  char s[8]; long long want = 0; int want_size = 4;
+  unsigned a = nondet_uint (), b = nondet_uint (), c = nondet_uint ();
+#if LKIND == 0            /* decimal abc */
+  V_ASSUME (a >= 1 && a <= 9 && b <= 9 && c <= 9);
+  s[0] = '0' + a; s[1] = '0' + b; s[2] = '0' + c; s[3] = 0; want = 100 * a + 10 * b + c;
+#elif LKIND == 1          /* negative decimal -ab */
+  V_ASSUME (a >= 1 && a <= 9 && b <= 9);
+  s[0] = '-'; s[1] = '0' + a; s[2] = '0' + b; s[3] = 0; want = -(long long) (10 * a + b);
+#elif LKIND == 2          /* hex 0xAB, either case */
+  V_ASSUME (a <= 15 && b <= 15);
+  s[0] = '0'; s[1] = nondet_bool () ? 'x' : 'X';
+  s[2] = a < 10 ? '0' + a : (nondet_bool () ? 'a' : 'A') + (a - 10); s[3] = b < 10 ? '0' + b : (nondet_bool () ? 'a' : 'A') + (b - 10); s[4] = 0; want = 16 * a + b;
+#elif LKIND == 3          /* 64-bit suffix: abL */
+  V_ASSUME (a >= 1 && a <= 9 && b <= 9);
+  s[0] = '0' + a; s[1] = '0' + b; s[2] = nondet_bool () ? 'L' : 'l'; s[3] = 0; want = 10 * a + b; want_size = 8;
+#else                      /* octal 0ab */
+  V_ASSUME (a <= 7 && b <= 7);
+  s[0] = '0'; s[1] = '0' + a; s[2] = '0' + b; s[3] = 0; want = 8 * a + b;
+#endif
+  int id = orc_program_add_constant_str (p, 0, s, "k");
+  V_ASSERT (id == ORC_VAR_C1, "a numeric literal becomes the first constant");
+  V_ASSERT (p->vars[id].vartype == ORC_VAR_TYPE_CONST && p->vars[id].value.i == want, "the constant has the value the literal denotes");
+  V_ASSERT (p->vars[id].size == want_size, "default size 4, 8 with the L suffix");
+  V_WITNESS ();
+}
+
+#ifndef OPRE
+#define OPRE 0
+#endif
+#ifndef OWHICH
+#define OWHICH 0
+#endif
+#ifndef OSWAP
+#define OSWAP 0
+#endif
+/* opcode line with declared operands: one instruction, operand order and prefix kept */
+void h_opcode_order (void)
+{
+  OrcParser parser; memset (&parser, 0, sizeof parser);
+  parser.code = ""; parser.opcode_set = &the_set; parser.enable_errors = 1; parser.line_number = 2;
+  OrcProgram *p = orc_program_new ();
+  parser.program = p;
+  int vd = orc_program_add_destination (p, 1, "d"), va = orc_program_add_source (p, 1, "a"), vb = orc_program_add_source (p, 1, "b"), vd2 = orc_program_add_destination (p, 1, "e");
+  OrcLine line; memset (&line, 0, sizeof line);
+  int pre = OPRE;          /* configuration: prefix, opcode and operand order are enumerated by the runner */
+  int k = 0;
+  if (pre == 1) line.tokens[k++] = "x2";
+  if (pre == 2) line.tokens[k++] = "x4";
+  int which = OWHICH;
+  int swap = OSWAP;
+  if (which == 0) { line.tokens[k++] = "addb"; line.tokens[k++] = "d"; line.tokens[k++] = swap ? "b" : "a"; line.tokens[k++] = swap ? "a" : "b"; }
+  else { line.tokens[k++] = "splitwb"; line.tokens[k++] = swap ? "e" : "d"; line.tokens[k++] = swap ? "d" : "e"; line.tokens[k++] = "a"; }
+  line.n_tokens = k;
+  orc_parse_handle_opcode (&parser, &line);
+  V_ASSERT (p->n_insns == 1 && parser.errors.n_items == 0, "a well-formed opcode line appends exactly one instruction");
+  OrcInstruction *in = &p->insns[0];
+  V_ASSERT (in->flags == (pre == 1 ? ORC_INSTRUCTION_FLAG_X2 : pre == 2 ? ORC_INSTRUCTION_FLAG_X4 : 0), "prefix kept");
+  if (which == 0) V_ASSERT (in->dest_args[0] == vd && in->src_args[0] == (swap ? vb : va) && in->src_args[1] == (swap ? va : vb), "operand order as written (dest, src1, src2)");
+  else V_ASSERT (in->dest_args[0] == (swap ? vd2 : vd) && in->dest_args[1] == (swap ? vd : vd2) && in->src_args[0] == va, "operand order as written (dest1, dest2, src)");
+  V_WITNESS ();
+}
+
+/* formatting independence of the tokenizer: an extra blank (space or tab) inserted at any position next to a separator, or a
+ * trailing comment, yields the same token sequence */
+#ifndef FL
+#define FL 6
+#endif
+static int tok_same (OrcLine *x, OrcLine *y)
+{
+  if (x->n_tokens != y->n_tokens) return 0;
+  for (int i = 0; i < ORC_LINE_MAX_TOKENS; i++) { if (i >= x->n_tokens) break; if (strcmp (x->tokens[i], y->tokens[i]) != 0) return 0; }
+  return 1;
+}
+void h_format_tokens (void)
+{
+  char *l1 = v_malloc (FL + 1), *l2 = v_malloc (FL + 4);
+  int len = nondet_int (); V_ASSUME (len >= 1 && len <= FL);
+  for (int i = 0; i < FL; i++) { char c = nondet_char (); if (i < len) { V_ASSUME (c != 0 && c != '\n' && c != '\r' && c != '#'); l1[i] = c; } else l1[i] = 0; }
+  l1[FL] = 0;
+  int pos = nondet_int (); V_ASSUME (pos >= 0 && pos <= len);
+  /* the inserted blank must not split a token: it goes next to an existing blank/comma, or at either end */
+  V_ASSUME (pos == 0 || pos == len || l1[pos - 1] == ' ' || l1[pos - 1] == '\t' || l1[pos - 1] == ',' || l1[pos] == ' ' || l1[pos] == '\t');
+  /* ... and not directly before a comma (", ," vs ",," keeps the empty operand either way, but " ," would create one) */
+  V_ASSUME (pos == len || l1[pos] != ',');
+  V_ASSUME (pos == 0 || l1[pos - 1] != ',' || 1);
+  char blank = nondet_bool () ? ' ' : '\t';
+  int j = 0;
+  for (int i = 0; i <= FL; i++) { if (i == pos) l2[j++] = blank; if (i < len) l2[j++] = l1[i]; }
+  int len2 = len + 1;
+  if (nondet_bool ()) { l2[j++] = ' '; l2[j++] = '#'; len2 += 2; }        /* trailing comment */
+  l2[j] = 0;
+  OrcLine a, b2; memset (&a, 0, sizeof a); memset (&b2, 0, sizeof b2);
+  a.p = l1; a.end = l1 + len; b2.p = l2; b2.end = l2 + len2;
+  orc_line_skip_blanks (&a); orc_line_skip_blanks (&b2);
+  if (orc_line_has_data (&a) && !orc_line_is_comment (&a)) orc_line_parse_tokens (&a);
+  if (orc_line_has_data (&b2) && !orc_line_is_comment (&b2)) orc_line_parse_tokens (&b2);
+  V_ASSERT (tok_same (&a, &b2), "extra blank next to a separator / trailing comment does not change the tokens");
+  V_WITNESS ();
+}
+
+/* line endings: LF, CR LF and a missing final newline give the same line sequence */
+void h_format_lines (void)
+{
+  static char t1[8], t2[12];
+  int len = nondet_int (); V_ASSUME (len >= 1 && len <= 5);
+  int j = 0;
+  for (int i = 0; i < 5; i++) {
+    char c = nondet_char ();
+    if (i < len) { V_ASSUME (c != 0 && c != '\r'); t1[i] = c; if (c == '\n') t2[j++] = '\r'; t2[j++] = c; } }
+  t1[len] = 0; t2[j] = 0;
+  OrcParser p1, p2; orc_parse_init (&p1, t1, 0); orc_parse_init (&p2, t2, 0);
+  for (int k = 0; k < 6; k++) {
+    int h1 = orc_parse_has_data (&p1), h2 = orc_parse_has_data (&p2);
+    V_ASSERT (h1 == h2, "same number of lines with LF and CR LF");
+    if (!h1) break;
+    orc_parse_get_line (&p1); orc_parse_get_line (&p2);
+    V_ASSERT (p1.line_length == p2.line_length && strcmp (p1.line, p2.line) == 0 && p1.line_number == p2.line_number, "line content and numbering independent of the line ending");
+  }
+  orc_parse_free_line (&p1); orc_parse_free_line (&p2);
+  V_WITNESS ();
+}
